@@ -5,6 +5,7 @@ state machine.  One `Op` is one call made by some process:
     acquire id amount     `resource.acquire(amount)`  — `id` names this call / its future / its grant
     tryAcquire id amount  `resource.try_acquire(amount)`
     release id            `grant.release()` of the grant obtained by call `id`
+    setCapacity c         `resource.set_capacity(c)` (the `ReduceCapacity` fault, or any caller)
 
 Amounts are integers (`Int`, so that the malformed stream can carry zero and negative amounts).
 `held` is the set of live `Grant` objects (not ghost: `release` needs the amount of the grant).
@@ -12,7 +13,11 @@ The code's behaviours mirrored on purpose:
 * `acquire` grants immediately whenever `available >= amount`, *also when other acquirers are
   queued* (a small request may overtake a queued large one);
 * `_wake_waiters` is strict FIFO: it stops at the first queued request that does not fit;
-* `Grant.release` is idempotent; it marks the grant released *before* `_do_release` may raise.
+* `Grant.release` is idempotent; it marks the grant released *before* `_do_release` may raise;
+* `set_capacity` moves `available` by the same amount as the capacity (grants stay with their
+  holders): after a reduction below the held amount `available` is negative — the resource is
+  over-committed — until enough grants come back; waiters are woken (FIFO) on an increase only;
+  a queued request larger than a reduced capacity stays queued.
 -/
 namespace HappyModel.C09.Res
 
@@ -29,6 +34,7 @@ inductive Op
   | acquire (id : Nat) (amount : Int)
   | tryAcquire (id : Nat) (amount : Int)
   | release (id : Nat)
+  | setCapacity (c : Int)
 deriving Repr, DecidableEq
 
 inductive Res
@@ -38,6 +44,7 @@ inductive Res
   | err          -- ValueError
   | released     -- grant returned
   | noop         -- release of a grant that is not live (already released / never granted)
+  | resized      -- set_capacity accepted
 deriving Repr, DecidableEq
 
 structure Out where
@@ -78,6 +85,18 @@ def release (s : St) (id : Nat) : St × Out :=
       ({ s with avail := a - amtSum woken, waiters := s.waiters.drop n, held := held' ++ woken },
        ⟨.released, woken.map (·.1)⟩)
 
+/-- `set_capacity`: `available` moves with the capacity; `_wake_waiters` only after an increase -/
+def setCapacity (s : St) (c : Int) : St × Out :=
+  if c ≤ 0 then (s, ⟨.err, []⟩)
+  else
+    let a := s.avail + (c - s.cap)
+    if s.cap < c then
+      let n := wakeN a s.waiters
+      let woken := s.waiters.take n
+      ({ cap := c, avail := a - amtSum woken, waiters := s.waiters.drop n, held := s.held ++ woken },
+       ⟨.resized, woken.map (·.1)⟩)
+    else ({ s with cap := c, avail := a }, ⟨.resized, []⟩)
+
 def step (s : St) : Op → St × Out
   | .acquire id amount =>
     if badAmount s amount then (s, ⟨.err, []⟩)
@@ -90,6 +109,7 @@ def step (s : St) : Op → St × Out
       ({ s with avail := s.avail - amount, held := s.held ++ [(id, amount)] }, ⟨.granted, []⟩)
     else (s, ⟨.refused, []⟩)
   | .release id => release s id
+  | .setCapacity c => setCapacity s c
 
 /-- final state after an operation list -/
 def run (s : St) : List Op → St
